@@ -74,6 +74,12 @@ INVARIANT NormalizeModel
                 jobs[v].append(("api.variants_to_file", {"files": ch, "path": f, "nvariants": 3 if tier == "quick" else 6,
                                                          "seed": seed(), "sources": srcs}))
             k += 1
+            f = str(wd / f"src-{v}-{k}.ndjson")
+            files.append(f)
+            ssrcs = [{"id": f"sn:{i}", "src": s, "mode": m} for i, (m, s) in enumerate(df.SNIPPETS)]
+            ssrcs += [{"id": f"ex:{n}", "src": s} for n, s in df.REPO_EXAMPLES.items()]
+            jobs[v].append(("encode.sources_to_file", {"sources": ssrcs, "path": f}))
+            k += 1
             f = str(wd / f"variants-src-{v}-{k}.ndjson")
             var_files.append(f)
             srcs = [{"id": f"sn:{i}", "src": s, "mode": m} for i, (m, s) in enumerate(df.SNIPPETS)]
